@@ -24,6 +24,10 @@ def main():
         contracts.bind(ctx)
         anchors = getattr(mod, "anchors", None)
         tr = trace.Anchors(anchors() if anchors else [])
+        import buidl  # noqa: F401  (everything is loaded before the state observer looks)
+        from vmon import leaks
+
+        state = leaks.snapshot()
         tr.start()
         try:
             if job.get("replay") is not None:
@@ -40,6 +44,7 @@ def main():
             tr.stop()
         res.update(ctx.result())
         res["anchors"] = tr.report()
+        res["leaks"] = leaks.changed(state)
     except BaseException as e:  # noqa: BLE001
         res["harness_error"] = "".join(traceback.format_exception(type(e), e, e.__traceback__))[-4000:]
     tmp = out_path + ".tmp"
